@@ -23,18 +23,22 @@ def record(ts, words, tid, debugid, cpu=0, unused=0):
     return struct.pack('<Q32sQIIQ', ts, struct.pack('<QQQQ', *words), tid, debugid, cpu, unused)
 
 
-def threadmap_entry(tid, pid, name):
-    """name: bytes of at most 19 bytes without NUL (what strlcpy into command[20] can produce)"""
+def threadmap_entry(tid, pid, name, junk=False):
+    """name: bytes of at most 19 bytes without NUL (what strlcpy into command[20] can produce); junk: the bytes after the
+    terminating NUL are left-overs of an earlier, longer command (the buffer is not cleared) instead of zeros"""
     assert len(name) <= 19 and b'\0' not in name
-    return struct.pack('<QI', tid, pid) + name + b'\0' * (20 - len(name))
+    tail = b'\0' * (20 - len(name))
+    if junk and len(tail) > 1:
+        tail = b'\0' + b'.apple.WebKit.Networking'[:len(tail) - 1]
+    return struct.pack('<QI', tid, pid) + name + tail
 
 
-def build_v2(threads, pad, records, is64=1, freq=24000000, hdr_fill=b'\0'):
+def build_v2(threads, pad, records, is64=1, freq=24000000, hdr_fill=b'\0', name_junk=False):
     """threads: [(tid, pid, name bytes)]; pad: number of zero bytes; records: [64-byte records]"""
     out = V2_MAGIC + struct.pack('<I', len(threads)) + hdr_fill * 8 + hdr_fill * 4 + struct.pack('<IQ', is64, freq)
     out += hdr_fill * 0x100
     for t in threads:
-        out += threadmap_entry(*t)
+        out += threadmap_entry(*t, junk=name_junk)
     out += b'\0' * pad
     out += b''.join(records)
     return out
@@ -57,14 +61,14 @@ def block(tag, payload, align=True):
 
 
 def build_v3(threads, chunks, blocks=(), filler=b'', junk=b'', tm_trailing=b'', between=None, header=None,
-             last_block_unaligned=False):
+             last_block_unaligned=False, name_junk=False):
     """chunks: list of lists of 64-byte records; blocks: [(tag, payload bytes)] in file order.
     between[i]: bytes between the MORE_EVENTS tag after chunk i and the next events tag."""
     out = V3_MAGIC + (header if header is not None else v3_header())
     out += b'\0' * 4                       # parser re-aligns to 8 from the start of the file
     out += filler + STACKSHOT_END
     out += junk + TAG_THREADMAP
-    tm = b''.join(threadmap_entry(*t) for t in threads) + tm_trailing
+    tm = b''.join(threadmap_entry(*t, junk=name_junk) for t in threads) + tm_trailing
     out += struct.pack('<Q', len(tm)) + tm
     for i, ch in enumerate(chunks):
         out += TAG_EVENTS + struct.pack('<Q', 64 * len(ch)) + b'\0' * 8 + b''.join(ch)
